@@ -13,18 +13,22 @@ package main
 
 import (
 	"bytes"
+	"context"
 	"fmt"
 	"go/ast"
 	"go/parser"
 	"go/token"
 	"math"
 	"math/rand"
+	"net/http"
+	"net/http/httptest"
 	"path/filepath"
 	"regexp"
 	"sort"
 	"strconv"
 	"strings"
 	"sync"
+	"time"
 
 	"github.com/Dash-Industry-Forum/livesim2/cmd/livesim2/app"
 	"github.com/Eyevinn/mp4ff/mp4"
@@ -268,6 +272,7 @@ func runL2(in c09in) (o c09obs) {
 
 type l1env struct {
 	segDurDiff []string
+	tsrv       *lib.Livesim // the same content behind a request timeout of 1 s (ServerConfig.TimeoutS)
 	ls         *lib.Livesim
 	assets     map[string]*lib.TLAsset
 	segDur     map[string]int64 // SegmentDurMS of the loaded asset (hook), 0 if the hook is unavailable
@@ -1025,6 +1030,58 @@ func (e *l1env) genL1(rng *rand.Rand, c *lib.Ctx) l1plan {
 		in.Why = fmt.Sprintf("adv+%d", x.off)
 		add("realtime", in, true)
 	}
+	// late inside a segment that is longer than the asset's nominal segment duration (alternating 4 s /
+	// 8 s segments, nominal 6 s): the chunks still to come are paced one by one
+	if a := e.assets["testpic_alt_seg_dur_stl"]; a != nil {
+		ref := a.Ref()
+		nominal := e.segDur[a.Path] * ref.Timescale / 1000
+		var long []int64
+		for n := int64(0); n < int64(len(ref.Segs)); n++ {
+			if ref.LoopE(n)-ref.LoopS(n) > nominal {
+				long = append(long, n)
+			}
+		}
+		if len(long) > 0 {
+			N := int64(len(ref.Segs))
+			for _, x := range []struct {
+				rep, ato string
+				back     int64 // ms before the end of the segment
+			}{{ref.ID, "5", 600}, {"A48", "5", 450}, {ref.ID, "3", 300}} {
+				if a.Rep(x.rep) == nil {
+					continue
+				}
+				in := c09in{Asset: a.Path, Rep: x.rep, Ato: x.ato, Chunkdur: "0.5", Mode: "number"}
+				in.Seg = long[rng.Intn(len(long))] + N*rng.Int63n(100000)
+				in.NowMS = ref.LoopE(in.Seg)*1000/ref.Timescale - x.back
+				in.Why = fmt.Sprintf("end-%d of a segment longer than nominal", x.back)
+				add("realtime:long-segment", in, true)
+			}
+		}
+	}
+	// re-segmented audio just after its nominal end (segment start + nominal duration) but before
+	// its frame-aligned end: the last chunk is not over yet
+	for _, x := range []struct{ asset, ato string }{{"testpic_2s", "1.5"}, {"testpic_8s", "7"}, {"testpic_6s", "5"}} {
+		a := e.assets[x.asset]
+		if a == nil || a.Rep("A48") == nil {
+			continue
+		}
+		ref, r := a.Ref(), a.Rep("A48")
+		best, bestGap := int64(-1), int64(0)
+		for k := 0; k < 400; k++ {
+			n := 10 + rng.Int63n(1000000)
+			startMS := audioTime(n, ref, r) * 1000 / r.Timescale
+			endMS := audioTime(n+1, ref, r) * 1000 / r.Timescale
+			if gap := endMS - (startMS + e.segDur[x.asset]); gap > bestGap {
+				best, bestGap = n, gap
+			}
+		}
+		if best >= 0 {
+			in := c09in{Asset: x.asset, Rep: "A48", Ato: x.ato, Chunkdur: "0.5", Mode: "number", Seg: best}
+			in.NowMS = audioTime(best, ref, r)*1000/r.Timescale + e.segDur[x.asset] + 1
+			in.Why = fmt.Sprintf("1 ms after the nominal end, %d ms before the audio end", bestGap-1)
+			add("realtime:audio-end", in, true)
+		}
+	}
 	// both sides of the offset range of chunked mode (0 <= ato < segment duration): exactly the
 	// segment duration, one ms / one us below and above, 0, negative, +Inf; also on the assets
 	// whose SegmentDurMS is a mean (alternating segment durations) or not a whole second (29.97 fps)
@@ -1076,6 +1133,8 @@ func runC09(c *lib.Ctx) error {
 	if c.Thorough() {
 		nL2 = 26000
 	}
+	interrupted := make(chan []intrRes, 1)
+	go func() { interrupted <- env.runInterrupted(c.Thorough()) }()
 	plan := env.genL1(rng, c)
 	l2 := genL2(rng, nL2, c)
 
@@ -1136,6 +1195,7 @@ func runC09(c *lib.Ctx) error {
 	sort.Slice(rtElapsed, func(i, j int) bool { return rtElapsed[i] < rtElapsed[j] })
 	c.Res.Notes = append(c.Res.Notes, fmt.Sprintf("real-time (server-paced) requests: %d, handler run times ms %v", len(rtElapsed), rtElapsed))
 	nMPD := env.mpdSignalling(c)
+	nMPD += env.evalInterrupted(c, <-interrupted)
 	c.Res.Evaluations = len(ins) + nMPD
 	c.Res.ModelCases = len(ins)
 	c.Res.DistinctNontrivial = len(distinct)
@@ -1189,6 +1249,9 @@ func newEnv() (*l1env, error) {
 		return nil, err
 	}
 	e := &l1env{ls: ls, assets: map[string]*lib.TLAsset{}, segDur: map[string]int64{}}
+	if ts, err := lib.NewLivesim(lib.TestVodRoot, func(cfg *app.ServerConfig) { cfg.TimeoutS = 1 }); err == nil {
+		e.tsrv = ts
+	}
 	for _, a := range as {
 		e.assets[a.Path] = a
 		sd, _, _ := app.VerifC09AssetInfo(ls.Srv, a.Path)
@@ -1312,4 +1375,131 @@ func (e *l1env) checkMPD(c *lib.Ctx, id string, in c09in) {
 			c.Fail(id, "mpd-atc", "whole-segment mode but availabilityTimeComplete=false: "+tp, in)
 		}
 	}
+}
+
+// ---------------------------------------------------------------- interrupted chunked requests (oracle only)
+
+// A chunked request whose pacing is cut short - by the server's request timeout (ServerConfig.TimeoutS,
+// chi Timeout middleware of the full router) or by the client going away (request context) - may
+// deliver fewer chunks, but still none before its end time, and what it delivers is a prefix of the segment.
+type intrRes struct {
+	in     c09in
+	how    string
+	chunks []chunkObs
+	whole  []sampleObs
+	ts     int64
+	err    string
+	status int
+}
+
+func (e *l1env) runInterrupted(thorough bool) []intrRes {
+	type spec struct {
+		rep, ato, how string
+		off           int64
+	}
+	specs := []spec{{"V300", "1.5", "server-timeout-1s", 0}, {"A48", "1.75", "server-timeout-1s", 0}, {"V300", "1.5", "client-gone-300ms", 0}, {"A48", "1", "client-gone-700ms", 0}}
+	if thorough {
+		specs = append(specs, spec{"V300", "1.9", "server-timeout-1s", 100}, spec{"V300", "1.25", "client-gone-100ms", 0}, spec{"A48", "1.9", "client-gone-1200ms", 0}, spec{"V300", "1", "client-gone-500ms", 250})
+	}
+	a := e.assets["testpic_2s"]
+	if a == nil {
+		return nil
+	}
+	out := make([]intrRes, len(specs))
+	var wg sync.WaitGroup
+	for i, s := range specs {
+		wg.Add(1)
+		go func(i int, s spec) {
+			defer wg.Done()
+			r := a.Rep(s.rep)
+			in := c09in{Kind: "interrupted", Asset: a.Path, Rep: s.rep, Ato: s.ato, Chunkdur: "0.5", Mode: "number", Seg: 1000 + int64(i)*7919, Why: s.how}
+			in.NowMS = a.Ref().LoopE(in.Seg)*1000/a.Ref().Timescale - atoMSExact(s.ato) + s.off
+			in.fillURLs(a, r, a.Ref())
+			res := intrRes{in: in, how: s.how, ts: r.Timescale}
+			if wr := e.ls.GetRaw(in.WholeURL); wr.Status == 200 && wr.Panic == "" {
+				if ws, err := parseFrags(wr.Body, r.Trex); err == nil {
+					for _, w := range ws {
+						res.whole = append(res.whole, w.Samples...)
+					}
+				}
+			}
+			req := httptest.NewRequest("GET", in.URL, nil)
+			var h http.Handler = e.ls.Srv.LiveRouter
+			if strings.HasPrefix(s.how, "server-timeout") {
+				if e.tsrv == nil {
+					res.err = "no server with a request timeout"
+					out[i] = res
+					return
+				}
+				h = e.tsrv.Srv.Router
+			} else {
+				var ms int
+				fmt.Sscanf(strings.TrimPrefix(s.how, "client-gone-"), "%dms", &ms)
+				ctx, cancel := context.WithTimeout(req.Context(), time.Duration(ms)*time.Millisecond)
+				defer cancel()
+				req = req.WithContext(ctx)
+			}
+			w := lib.NewRecWriter()
+			start := time.Now().UnixMilli()
+			func() {
+				defer func() {
+					if p := recover(); p != nil {
+						res.err = fmt.Sprintf("panic: %v", p)
+					}
+				}()
+				h.ServeHTTP(w, req)
+			}()
+			res.status = w.Code
+			rr := lib.RecResp{Resp: lib.Resp{Status: w.Code, Header: w.Hdr, Body: w.Body.Bytes()}, StartUnixMS: start, Events: w.Events}
+			for _, p := range rr.Parts() {
+				if p.FlushMS == 0 {
+					continue // the error text the middleware / handler appends after the last chunk
+				}
+				cs, err := parseFrags(p.Data, r.Trex)
+				if err != nil {
+					res.err = "chunk unparsable: " + err.Error()
+					break
+				}
+				for _, ch := range cs {
+					ch.WriteMS = in.NowMS + (p.FirstWriteMS - start)
+					res.chunks = append(res.chunks, ch)
+				}
+			}
+			out[i] = res
+		}(i, s)
+	}
+	wg.Wait()
+	return out
+}
+
+func (e *l1env) evalInterrupted(c *lib.Ctx, rs []intrRes) int {
+	for i, r := range rs {
+		id := fmt.Sprintf("intr%d", i)
+		c.Res.Inputs[id] = r.in
+		c.Count("interrupted:" + r.how)
+		c.Count(fmt.Sprintf("interrupted:chunks-delivered=%d", len(r.chunks)))
+		if r.err != "" {
+			c.Fail(id, "interrupted-error", r.err, r.in)
+			continue
+		}
+		var cat []sampleObs
+		for k, ch := range r.chunks {
+			endMS := int64(ch.Tfdt+ch.span()) * 1000 / r.ts
+			if ch.WriteMS < endMS {
+				c.Fail(id, "early-chunk", fmt.Sprintf("%s: chunk %d (media end %d ms) was written at %d ms on the request's wall clock, %d ms early", r.how, k, endMS, ch.WriteMS, endMS-ch.WriteMS), r.in)
+			}
+			cat = append(cat, ch.Samples...)
+		}
+		ok := len(cat) <= len(r.whole)
+		for j := 0; ok && j < len(cat); j++ {
+			x, y := cat[j], r.whole[j]
+			if x.DT != y.DT || x.Dur != y.Dur || x.Flags != y.Flags || x.Size != y.Size || x.Cto != y.Cto || !bytes.Equal(x.Data, y.Data) {
+				ok = false
+			}
+		}
+		if !ok {
+			c.Fail(id, "same-media", fmt.Sprintf("%s: the %d samples delivered before the interruption are not a prefix of the segment's %d samples", r.how, len(cat), len(r.whole)), r.in)
+		}
+	}
+	return len(rs)
 }
